@@ -1,6 +1,7 @@
 package main
 
 import (
+	"strings"
 	"time"
 
 	"verifsim/plan"
@@ -64,6 +65,12 @@ func shrink(b *buildOut, cfg propCfg, p *plan.Plan, res *plan.Result, v plan.Vio
 		}
 		// whole actors
 		for i := 0; i < len(p.Actors) && len(p.Actors) > 1; i++ {
+			// the actors that poll are part of what a consumer is: without
+			// them every "was not consumed" clause fails for a reason that
+			// has nothing to do with the code under test
+			if n := p.Actors[i].Name; strings.HasPrefix(n, "poll") || strings.HasPrefix(n, "pattern") {
+				continue
+			}
 			q := p.Clone()
 			q.Actors = append(q.Actors[:i], q.Actors[i+1:]...)
 			if try(q) {
